@@ -77,7 +77,7 @@ fn run_async(c: &mut Case, case: &ConnCase, what: &str) -> bool {
         }
         End::Finished => {}
     }
-    let out = w.pipe.lock().unwrap().outbox.clone();
+    let out = w.pipe.lock().unwrap_or_else(std::sync::PoisonError::into_inner).outbox.clone();
     let invs = w.log.lock().unwrap().invocations.clone();
     match check_conn(case, &model, &out, &invs, case.reqs.len(), c.l) {
         Ok(_) => {
